@@ -374,7 +374,11 @@ func (fr *frame) visit(instr ssa.Instruction) bool {
 			in.goPanic("nil-map", "assignment to entry in nil map")
 		}
 		k := fr.get(instr.Key)
-		m.set(in.mapKey(k), k, copyVal(fr.get(instr.Value)))
+		fp := in.mapKey(k)
+		if ck, ok := fp.(constKey); ok {
+			k = ck.t
+		}
+		m.set(fp, k, copyVal(fr.get(instr.Value)))
 	case *ssa.TypeAssert:
 		fr.env[instr] = in.typeAssert(instr, fr.get(instr.X).(Iface))
 	case *ssa.MakeClosure:
